@@ -200,6 +200,9 @@ def execute(ctx, case: dict) -> None:
                 acl.ungroup()
                 acl.group(prefix)
                 _record(acl, "regroup")
+            elif op == "group-again":
+                acl.group(prefix)  # on the ACL as it stands (blocks possibly moved), without ungrouping first
+                _record(acl, "regroup")
             elif op == "reverse":
                 acl.reverse()
                 _record(acl, "reverse")
@@ -288,6 +291,8 @@ def gen_case(rng, thorough=False):
             proto = rng.choice(["tcp", "udp"])
             src = rng.choice(["any", f"host 10.0.0.{idx + 1}", f"{word} GS{idx}"])
             dst = rng.choice(["any", f"10.{idx}.0.0 0.0.255.255", f"{word} GD{idx}"])
+            if src.startswith(word) and rng.random() < 0.3:
+                dst = src  # one group name on both sides; the two address objects carry their own member lists
             lines.append(f"{rng.choice(['permit', 'deny'])} {proto} {src} {dst} eq {1000 + idx}")
             mem = {}
             if src.startswith(word):
@@ -299,7 +304,8 @@ def gen_case(rng, thorough=False):
     text = grammar.acl_header(platform, "C15") + "\n" + "\n".join("  " + ln for ln in lines)
     ops = ["group"]
     for _ in range(rng.randint(1, 6)):
-        ops.append(rng.choice(["reverse", "shuffle", "rotate", "sort-key", "sort-rev", "regroup", "shuffle", "reseq-shuffle-sort"]))
+        ops.append(rng.choice(["reverse", "shuffle", "rotate", "sort-key", "sort-rev", "regroup", "shuffle", "reseq-shuffle-sort",
+                               "group-again", "group-again"]))
     ops.append(rng.choice(["ungroup", "reseq-shuffle-sort", "ungroup"]))
     if members and rng.random() < 0.3:
         ops.insert(rng.randint(0, len(ops)), "degroup-address")
